@@ -48,6 +48,10 @@ var shapes = []shape{
 	{"client-empty", nil, []security.AuthMethod{CTB}, 0, 0},
 	{"server-empty", []security.AuthMethod{CTB}, nil, 0, 0},
 	{"unimplemented-first", []security.AuthMethod{PW, CTB}, []security.AuthMethod{PW, CTB}, 1, 0},
+	// names cedar does not implement at all (no method bit) ahead of the usable common method
+	{"unknown-name-first-on-server", []security.AuthMethod{CTB}, []security.AuthMethod{security.AuthMethod("MUNGE"), CTB}, 1, 0},
+	{"unknown-name-first-on-client", []security.AuthMethod{security.AuthMethod("GSI"), CTB}, []security.AuthMethod{CTB}, 1, 0},
+	{"unknown-between", []security.AuthMethod{TOK, CTB}, []security.AuthMethod{TOK, security.AuthMethod("GSI"), CTB}, 1, 0},
 	{"token-listed-not-held", []security.AuthMethod{TOK}, []security.AuthMethod{TOK}, -1, 0},
 	{"token-held", []security.AuthMethod{TOK}, []security.AuthMethod{TOK}, 1, 1},
 }
